@@ -74,6 +74,8 @@ type gen struct {
 	gwHosts   map[string][]string // ns/name -> server hosts
 	epIPs     []string
 	efSeq     int
+	ambient   bool
+	kube      []string
 }
 
 func newGen(r *wire.Rng, malformed bool) *gen {
@@ -289,7 +291,15 @@ func (g *gen) serviceEntry() {
 		se.SubjectAltNames = []string{"spiffe://cluster.local/ns/default/sa/x"}
 	}
 	ns := g.ns()
-	g.add("ServiceEntry", ns, g.name("se"), se, nil)
+	var lbl map[string]string
+	if g.ambient && g.ch(2, 3) {
+		ns = "default"
+		lbl = map[string]string{"istio.io/use-waypoint": "waypoint"}
+		if g.ch(1, 4) {
+			lbl["istio.io/ingress-use-waypoint"] = "true"
+		}
+	}
+	g.add("ServiceEntry", ns, g.name("se"), se, lbl)
 	for _, h := range se.Hosts {
 		g.noteHost(h, ports)
 	}
@@ -930,7 +940,11 @@ func (g *gen) proxies() {
 		}
 		g.pushes = append(g.pushes, p)
 	}
-	if g.ch(1, 3) {
+	if g.ambient {
+		g.pushes = append(g.pushes, pushDesc{Type: "waypoint", Ns: "default", IPs: []string{"3.0.0.1"},
+			Labels: map[string]string{"gateway.networking.k8s.io/gateway-name": "waypoint", "gateway.istio.io/managed": "istio.io-mesh-controller"}})
+	} else if g.ch(1, 6) {
+		// a waypoint nobody configured: its listeners and clusters are still generated
 		g.pushes = append(g.pushes, pushDesc{Type: "waypoint", Ns: "default", Labels: map[string]string{"gateway.networking.k8s.io/gateway-name": "waypoint"}, IPs: []string{"10.6.0.1"}})
 	}
 }
@@ -943,6 +957,14 @@ func (g *gen) build() {
 	}
 	if g.ch(1, 8) {
 		g.opts["h2upgrade"] = "1"
+	}
+	if g.ch(1, 4) {
+		g.ambient = true
+		g.opts["ambient"] = "1"
+		g.kube = append(g.kube, waypointGateway, waypointService)
+		// the waypoint's own workload: an instance of the waypoint Service (mirrored to the Kubernetes side)
+		g.add("WorkloadEntry", "default", "waypoint-a", &networking.WorkloadEntry{Address: "3.0.0.1",
+			Labels: map[string]string{"gateway.networking.k8s.io/gateway-name": "waypoint"}}, nil)
 	}
 	g.gatewayService()
 	n := 2 + g.r.Intn(5)
@@ -993,6 +1015,9 @@ func (g *gen) emit(o *wire.Out, n int) {
 	if len(g.opts) > 0 {
 		o.Line("opt", encMap(g.opts))
 	}
+	for _, k := range g.kube {
+		o.Line("kube", wire.Enc(k))
+	}
 	for _, s := range g.svcs {
 		o.Line(s.line()...)
 	}
@@ -1029,3 +1054,13 @@ func genSnapshot(seed uint64, n int, path string) {
 		g.emit(o, i)
 	}
 }
+
+// the waypoint of namespace default, as the ambient tests of /repo set one up (pilot/pkg/xds/waypoint_test.go)
+const (
+	waypointGateway = `{"apiVersion":"gateway.networking.k8s.io/v1","kind":"Gateway","metadata":{"name":"waypoint","namespace":"default"},` +
+		`"spec":{"gatewayClassName":"waypoint","listeners":[{"name":"mesh","port":15008,"protocol":"HBONE"}]},` +
+		`"status":{"addresses":[{"type":"Hostname","value":"waypoint.default.svc.cluster.local"}]}}`
+	waypointService = `{"apiVersion":"v1","kind":"Service","metadata":{"name":"waypoint","namespace":"default","labels":{"gateway.istio.io/managed":"istio.io-mesh-controller",` +
+		`"gateway.networking.k8s.io/gateway-name":"waypoint","istio.io/gateway-name":"waypoint"}},` +
+		`"spec":{"clusterIP":"3.0.0.0","ports":[{"appProtocol":"hbone","name":"mesh","port":15008}],"selector":{"gateway.networking.k8s.io/gateway-name":"waypoint"}}}`
+)
